@@ -127,3 +127,58 @@ def in_fork(fn, *args, **kwargs):
     if kind == 'err':
         raise HarnessError('forked execution failed: ' + val)
     return val
+
+
+class Zygote:
+    """A fork of this process taken *now* (before anything else runs here) that stays alive and,
+    on request, forks a grandchild to evaluate fn(*args): every evaluation starts from the
+    process state at the time the zygote was created, however dirty the requesting process has
+    become since. Used for history-free reference results."""
+
+    def __init__(self, fn):
+        import pickle
+        self._pickle = pickle
+        req_r, req_w = os.pipe()
+        res_r, res_w = os.pipe()
+        self.pid = os.fork()
+        if self.pid == 0:
+            code = 0
+            try:
+                os.close(req_w)
+                os.close(res_r)
+                with os.fdopen(req_r, 'rb') as rin, os.fdopen(res_w, 'wb') as rout:
+                    while True:
+                        try:
+                            args = pickle.load(rin)
+                        except EOFError:
+                            break
+                        try:
+                            payload = ('ok', in_fork(fn, *args))
+                        except BaseException as exc:
+                            payload = ('err', f'{type(exc).__name__}: {exc}')
+                        pickle.dump(payload, rout)
+                        rout.flush()
+            except BaseException:
+                code = 1
+            finally:
+                os._exit(code)
+        os.close(req_r)
+        os.close(res_w)
+        self._req = os.fdopen(req_w, 'wb')
+        self._res = os.fdopen(res_r, 'rb')
+
+    def __call__(self, *args):
+        self._pickle.dump(args, self._req)
+        self._req.flush()
+        kind, val = self._pickle.load(self._res)
+        if kind == 'err':
+            raise HarnessError('zygote evaluation failed: ' + val)
+        return val
+
+    def close(self):
+        try:
+            self._req.close()
+            self._res.close()
+            os.waitpid(self.pid, 0)
+        except Exception:
+            pass
